@@ -159,6 +159,10 @@ def t_sem(ctx):
                 ctx.witness('limit exceeded (lax)')
                 # documented exception only: lax and the caller waited the full acquisition time-out; it owns no slot
                 ctx.check('C20.limit', zand(lax, r.t == me['call'] + semT), caller=r.i, inprog=list(cur), holders=list(hold))
+            elif bool(zand(lax, r.t == me['call'] + semT)) and any(x.kind == 'BX' and x.key == r.key and x.t == r.t for x in recs if x.seq < r.seq):
+                # tie: a slot was released at the very instant this caller's acquisition timed out; whether it got the slot or
+                # went on without one (lax) cannot be told from outside, so it is not counted as a slot holder
+                ctx.witness('release/time-out tie')
             else:
                 hold.append(r.i)
             cur.append(r.i)
